@@ -4,6 +4,7 @@ from fractions import Fraction
 
 from sa import mir, tables, codec, affine
 from sa.mir import backslice, AnchorMissing
+from rules import C01, C03
 
 TITLE = ("C07: writer/reader codec agreement of every on-disk record, address agreement between flusher and scanner, alignment, and the splitter's "
          "state updates as affine normal forms (sibling agreement of split_blob / seal_blob, entry offsets, scanner step).")
@@ -225,4 +226,6 @@ def run(chk, F):
     chk.run_rule("C07.codec", "every on-disk record's writer and reader agree on order, width and range; header length; blob index seal/read", 9, codecs, F)
     chk.run_rule("C07.address-agreement", "flusher and scanner compute entry addresses as blob start + index.offset with len/sequence from the index", 7, address_agreement, F)
     chk.run_rule("C07.alignment", "page alignment asserted before writes; buffer and scanner advance by aligned lengths", 8, alignment, F)
+    chk.run_rule("C07.scan-stops-at-stale-blob", "the block scan ends at the first blob whose sequence regresses against the last entry recovered from the block", 2, C01.block_regression, F)
+    chk.run_rule("C07.scan-stops-at-damaged-blob", "blob index used only after its checksum matched; a damaged index ends the scan", 3, C03.blob_index, F)
     chk.run_rule("C07.splitter-updates", "the splitter's state updates, emitted parts and entry offsets as affine forms; split_blob / seal_blob agree", 10, splitter, F)
